@@ -11,6 +11,7 @@
 #
 import random
 import string
+from fractions import Fraction
 from math import sqrt, radians, cos, sin, acos, degrees, floor
 from operator import sub, add
 from typing import List, Union, Optional, Iterable, Tuple
@@ -499,10 +500,21 @@ class SymmetryElement(object):
         Generate and return string representation of Symmetry Operation in Shelxl syntax.
         :return: string.
         """
+        return self._as_text(str)
+
+    def to_cif(self) -> str:
+        """
+        Generate and return string representation of Symmetry Operation in CIF syntax.
+        The translational parts are written as fractions (1/3, 5/6, ...) of the exact value.
+        :return: string.
+        """
+        return self._as_text(self._as_fraction).lower()
+
+    def _as_text(self, format_translation) -> str:
         axes = ['X', 'Y', 'Z']
         lines = []
         for i in range(3):
-            text = str(self.trans[i]) if self.trans[i] else ''
+            text = format_translation(self.trans[i]) if self.trans[i] else ''
             for j in range(3):
                 s = '' if not self.matrix[i, j] else axes[j]
                 if self.matrix[i, j] < 0:
@@ -513,17 +525,17 @@ class SymmetryElement(object):
             lines.append(text)
         return ', '.join(lines)
 
-    def to_cif(self) -> str:
-        return self._replace_float_values(self.to_shelxl()).lower()
-
-    def _replace_float_values(self, val: str) -> str:
-        val = val.replace('1.25', '5/4')
-        val = val.replace('0.75', '3/4')
-        val = val.replace('0.5', '1/2')
-        val = val.replace('0.33', '1/3')
-        val = val.replace('0.25', '1/4')
-        val = val.replace('0.125', '1/6')
-        return val
+    @staticmethod
+    def _as_fraction(value: float) -> str:
+        """
+        >>> SymmetryElement._as_fraction(0.3333333333333333)
+        '1/3'
+        >>> SymmetryElement._as_fraction(-0.5)
+        '-1/2'
+        >>> SymmetryElement._as_fraction(1.1666666666666667)
+        '7/6'
+        """
+        return str(Fraction(value).limit_denominator(1000))
 
     def _parse_line(self, symm: str) -> Tuple[List[int], float]:
         symm = symm.upper().replace(' ', '')
